@@ -303,7 +303,14 @@ def lay1(ctx, c):
         st = pos["symbol back-patch"][1]
         t = U(st)
         good = re.search(r"if value\.is_address\(\):\s+self\.symbol_table\[symbol\] = self\.statements\[value\.int\]\.code_pkg\.address", t) is not None
-        if good:
+        # every label gets its address, the labels of statements that emit nothing too (ORG, END, RMB 0 ...): a test on the statement's size or kind leaves some with their index
+        partial = [n_ for n_ in ast.walk(st) if isinstance(n_, ast.If) and re.search(r"code_pkg\.(size|max_size)|\.instruction\.|\.mnemonic|is_pseudo", U(n_.test))
+                   and any(isinstance(x, ast.Assign) and "symbol_table" in U(x.targets[0]) for x in ast.walk(n_))]
+        if partial:
+            c.finding("translate_statements:back-patch", "only some labels get their address (%s)" % U(partial[0].test)[:50],
+                      "the back-patch stores a label's address only when `%s`: a label on a statement that fails the test keeps the statement INDEX as its value, which the symbol table "
+                      "prints and every reference to it encodes" % U(partial[0].test)[:70], repo.loc(fn, partial[0]))
+        elif good:
             c.ok("translate_statements:back-patch", "label -> address of the statement it indexes", repo.loc(fn, st))
         else:
             c.undecided("translate_statements:back-patch", "shape-unknown", t[:80], repo.loc(fn, st))
@@ -390,6 +397,19 @@ def lay3(ctx, c):
                   "that assembles stops assembling - or changes meaning - under a consistent renaming of its labels" % (hit_[0].q, U(hit_[2][0])[:60]), repo.loc(hit_[0], hit_[1]))
     elif ck_:
         c.ok("symbol-table:key", "symbols are keyed by their whole name at %d sites" % len(ck_), where)
+    # the symbol listing shows every symbol whatever it is called: one filtered by its spelling disappears from the output under a renaming
+    gst = repo.cls("Program").methods.get("get_symbol_table")
+    if gst is not None:
+        filt = [n for n in ast.walk(gst.node) if (isinstance(n, ast.If) and any(isinstance(x, ast.Continue) for x in n.body)) or
+                (isinstance(n, ast.comprehension) and n.ifs)]
+        tests_ = [U(n.test) if isinstance(n, ast.If) else U(n.ifs[0]) for n in filt]
+        by_name = [t_ for t_ in tests_ if re.search(r"startswith|endswith|\[0\]|\bin\b|isupper|islower|len\(|match|==", t_) and not re.search(r"is_address|is_numeric|\.type\b", t_)]
+        if by_name:
+            c.finding("get_symbol_table:every-symbol", "symbols are left out of the listing by name (%s)" % by_name[0][:40],
+                      "Program.get_symbol_table skips a symbol when `%s`: such names are ordinary labels to the rest of the assembler, so renaming a label consistently changes what the "
+                      "symbol table shows" % by_name[0][:60], repo.loc(gst, filt[0] if isinstance(filt[0], ast.If) else gst.node))
+        else:
+            c.ok("get_symbol_table:every-symbol", "every symbol is listed", repo.loc(gst, gst.node))
     # EQU symbols take the operand's value, labels the statement index
     for n in ast.walk(fn.node):
         if isinstance(n, ast.If) and "is_pseudo_define" in U(n.test) and n.orelse:
@@ -505,6 +525,31 @@ def exp1(ctx, c):
                 k = try_fold(x.right, ctx.env)
                 if isinstance(k, int) and k > 0x1F and (k & (k + 1)) != 0 and k not in (0xC0, 0x60, 0x80):
                     c.undecided("%s:mask" % f.q, "mask %#x is not of the form 2^n - 1" % k, "", repo.loc(f, x))
+    # sibling arms: the four operator arms of calculate_address_offset build their result the same way (a 16-bit extended value); an arm that leaves the width to the
+    # magnitude gives label-n a one-byte rendering whenever the result is below $100, so the size of a statement changes with the origin
+    cao = repo.cls("ExpressionValue").methods.get("calculate_address_offset")
+    if cao is not None:
+        ctor_calls = [x for x in ast.walk(cao.node) if isinstance(x, ast.Call) and U(x.func).endswith("NumericValue") and x.args
+                      and any(isinstance(y, ast.BinOp) for y in ast.walk(x.args[0]))]
+        kwsets = {}
+        for x in ctor_calls:
+            kwsets.setdefault(tuple(sorted((k.arg, U(k.value)) for k in x.keywords if k.arg)), []).append(x)
+        if len(kwsets) > 1:
+            major = max(kwsets.items(), key=lambda kv: len(kv[1]))[0]
+            odd = next(v_[0] for k_, v_ in kwsets.items() if k_ != major)
+            c.finding("calculate_address_offset:arms-agree", "one arm builds its result differently (%s)" % U(odd)[:50],
+                      "calculate_address_offset returns `%s` in one operator arm while the other arms pass %s: that arm's result takes its width from its magnitude, so label-n below $100 is "
+                      "rendered in one byte and the instruction that uses it changes size when the program is moved" % (U(odd)[:70], dict(major)), repo.loc(cao, odd))
+        elif ctor_calls:
+            c.ok("calculate_address_offset:arms-agree", "every operator arm builds its result with the same width and mode", repo.loc(cao, cao.node))
+    # `cond and a or b` is not `a if cond else b`: it yields b whenever a is falsy - and a statement index or a constant can be 0 (a label on the first line, FIELD EQU 0)
+    for m_ in repo.cls("ExpressionValue").methods.values():
+        for x in ast.walk(m_.node):
+            if isinstance(x, ast.BoolOp) and isinstance(x.op, ast.Or) and len(x.values) == 2 and isinstance(x.values[0], ast.BoolOp) and isinstance(x.values[0].op, ast.And) \
+                    and re.search(r"\.int$|\.int\)$", U(x.values[0].values[-1])) and re.search(r"\.is_\w+\(\)", U(x.values[0].values[0])):
+                c.finding("%s:and-or" % m_.q, "`%s` yields the other term when the chosen one is 0" % U(x)[:50],
+                          "%s computes `%s`: when the predicate holds and the value it selects is 0 (a label on statement 0, a constant 0) the expression falls through to the other operand, "
+                          "so label+constant evaluates to the wrong address" % (m_.q, U(x)[:70]), repo.loc(m_, x))
     # ExpressionValue.resolve evaluated for every operator x (symbol | literal) on either side: both symbols are looked up under their own names,
     # the result is NumericValue(left op right) with truncating division, at a width the result fits
     from ..concrete import Obj as _O, ClsRef as _C, Desc as _D, run_concrete as _run, show as _show
@@ -515,7 +560,9 @@ def exp1(ctx, c):
     ev_problems = []
     ev_notes = []
     for opch, pyop in (("+", lambda a, b: a + b), ("-", lambda a, b: a - b), ("*", lambda a, b: a * b), ("/", lambda a, b: int(a / b))):
-        for lk, rk, lv, rv in [(lk_, rk_, 300, 7) for lk_ in ("symbol", "numeric") for rk_ in ("symbol", "numeric")] + [("numeric", "numeric", 7, 300), ("symbol", "symbol", 16, 32)]:
+        for lk, rk, lv, rv in [(lk_, rk_, 300, 7) for lk_ in ("symbol", "numeric") for rk_ in ("symbol", "numeric")] + [("numeric", "numeric", 7, 300), ("symbol", "symbol", 16, 32), ("numeric", "symbol", 300, 0)]:
+            if rv == 0 and opch == "/":
+                continue        # decided by EXP-2 (division by zero)
             if True:
 
                 def mk(kind, name, value):
@@ -863,10 +910,16 @@ def dir1(ctx, c):
     from ..consteval import Raised as _Rl, NotConst as _Nl
 
     def _objcall(cls_, args_, kw_, meth_, margs_, mkw_):
-        init_ = repo.method(cls_, "__init__")
-        a_ = dict(zip([p_ for p_ in init_.params if p_ != "self"], args_))
-        a_.update(kw_)
-        st_ = _fcl(ctx, cls_, a_)
+        from ..consteval import ObjTok as _OT
+        if isinstance(args_, _OT):
+            st_ = args_.state
+        else:
+            init_ = repo.method(cls_, "__init__")
+            a_ = dict(zip([p_ for p_ in init_.params if p_ != "self"], args_))
+            a_.update(kw_)
+            st_ = _fcl(ctx, cls_, a_)
+        if meth_ == "@new":
+            return _OT(cls_, st_)
         if meth_.startswith("@"):
             if "self." + meth_[1:] in st_:
                 return st_["self." + meth_[1:]]
@@ -966,7 +1019,9 @@ def dir1(ctx, c):
                 pre.append(st)
             try:
                 for line, want in ((' FCC /AB/', "/AB/"), (' FCC /AB/ rest', "/AB/"), (' FCC "ONE TWO THREE"', '"ONE TWO THREE"'), (' FCC "ONE TWO  THREE" c', '"ONE TWO  THREE"'),
-                                   (" FCC /AB/x", "/AB/"), (" FCC 'Q' 'R'", "'Q'"), (' FCC "A B\tC  D"', '"A B\tC  D"'), (' FCC "A  B"', '"A  B"'), (' FCC ""', '""'), (' FCC // c', '//')):
+                                   (" FCC /AB/x", "/AB/"), (" FCC 'Q' 'R'", "'Q'"), (' FCC "A B\tC  D"', '"A B\tC  D"'), (' FCC "A  B"', '"A  B"'), (' FCC ""', '""'), (' FCC // c', '//'),
+                                   (' FCC """A"', '""'), (' FCC "AB""CDE"', '"AB"'),
+                                   (' FCC .A.B', '.A.'), (' FCC *AB* c', '*AB*'), (' FCC ?X? y', '?X?'), (' FCC $A$ c', '$A$'), (' FCC +A+', '+A+'), (' FCC (A( c', '(A(')):
                     m_ = rx_line.match(line + "\n")
                     if m_ is None:
                         continue
@@ -988,7 +1043,12 @@ def dir1(ctx, c):
                 else:
                     c.ok("parse_line:FCC:slice", "the delimited string as written (white space after the first gap kept), nothing after it", repo.loc(pl, cfs[0]))
             except _NC as e:
-                c.undecided("parse_line:FCC:slice", "branch-not-foldable", str(e)[:80], repo.loc(pl, cfs[0]))
+                if "step limit" in str(e):
+                    c.finding("parse_line:FCC:terminates", "the FCC branch does not finish for the line %r" % line.strip(),
+                              "folding the FCC branch of parse_line for the source line %r exceeds 20000 steps: a loop in it makes no progress for that input, so the assembler hangs "
+                              "instead of reporting the line" % line.strip(), repo.loc(pl, cfs[0]))
+                else:
+                    c.undecided("parse_line:FCC:slice", "branch-not-foldable", str(e)[:80], repo.loc(pl, cfs[0]))
         fg = results.get(' FCC "A  B"')
         if (fg is not None and fg[0] != fg[1]) or (fg is None and "'{} {}'.format(data.group('operands'), data.group('comment').strip())" in t):
             c.finding("parse_line:FCC:reassembly", "string rebuilt from the operands and comment groups with a single space",
@@ -1172,6 +1232,28 @@ def inc1(ctx, c):
                         c.finding("process_mnemonics:alters-included", "a statement of the included file is changed (%s)" % U(n_)[:50],
                                   "process_mnemonics does `%s` on the statements that came out of the included file: the program then differs from the one that has the file's lines in "
                                   "place of the INCLUDE line (an extra or moved label, another operand)" % U(n_)[:70], repo.loc(fn, n_))
+    # inclusion nests as deep as the sources do: the only inclusion that is refused is one that would never end (a cycle)
+    from ..consteval import fold as _fdl, NotConst as _Ndl
+    trail_p = params[1] if len(params) > 1 else None
+    for n_ in ast.walk(loop):
+        if isinstance(n_, ast.If) and n_.body and isinstance(n_.body[-1], ast.Raise) and trail_p and re.search(r"len\(%s\)" % re.escape(trail_p), U(n_.test)):
+            import copy as _cp
+
+            class _LS(ast.NodeTransformer):
+                def visit_Call(self, node):
+                    self.generic_visit(node)
+                    if U(node.func) == "len" and node.args and U(node.args[0]) == trail_p:
+                        return ast.copy_location(ast.Name(id="__depth", ctx=ast.Load()), node)
+                    return node
+            t2_ = _LS().visit(_cp.deepcopy(n_.test))
+            try:
+                refused_at = [d_ for d_ in range(0, 9) if _fdl(t2_, dict(ctx.env, __depth=d_))]
+            except _Ndl:
+                continue
+            if refused_at:
+                c.finding("process_mnemonics:depth-limit", "an INCLUDE nested %d deep is refused (%s)" % (refused_at[0] + 1, U(n_.test)[:40]),
+                          "process_mnemonics raises when `%s`, i.e. with %d file(s) already open: a chain main -> a -> b -> c without any cycle is rejected although the program with the "
+                          "files' lines in place assembles" % (U(n_.test)[:60], refused_at[0]), repo.loc(fn, n_))
     # the expansion is a fresh recursive parse of the file named by the operand
     t = U(loop)
     src_calls = [n for n in ast.walk(loop) if isinstance(n, ast.Call) and U(n.func) == "SourceFile"]
@@ -1347,6 +1429,17 @@ def inc1(ctx, c):
                           "for one, and a program without any cycle is rejected" % U(m_)[:70], repo.loc(fn, m_))
             else:
                 c.ok("process_mnemonics:trail-identity", "files are identified by the name they are included by", repo.loc(fn, m_))
+    # a source is text in whatever the host uses; narrowing the codec to ASCII makes a comment with an accented letter a UnicodeDecodeError (a ValueError, which none of
+    # the handlers around reading a source or an INCLUDE file catch)
+    rc0 = repo.method("SourceFile", "read_assembly_contents")
+    for x in ast.walk(rc0.node):
+        if isinstance(x, ast.Call) and U(x.func) in ("open", "io.open", "codecs.open"):
+            kw_ = {k.arg: try_fold(k.value, ctx.env) for k in x.keywords if k.arg}
+            enc_ = kw_.get("encoding")
+            if isinstance(enc_, str) and enc_.lower().replace("_", "-") in ("ascii", "us-ascii") and kw_.get("errors", "strict") == "strict":
+                c.finding("SourceFile.read_assembly_contents:codec", "the source is decoded as strict %s" % enc_,
+                          "read_assembly_contents opens the file with encoding=%r and strict error handling: one character outside 7-bit ASCII anywhere in the main source or an INCLUDE file "
+                          "(an accented name in a comment) raises UnicodeDecodeError, which is not an OSError - the assembler ends in a traceback" % enc_, repo.loc(rc0, x))
     # the whole file is read
     rc = repo.method("SourceFile", "read_assembly_contents")
     for x in ast.walk(rc.node):
